@@ -746,16 +746,16 @@ def report(prop, tier, seed, results, extras, wall, rebaseline, replay):
     for u in results:
         u.verified_total = u.verified
         u.functions_total = list(u.functions)
+        if u.name in pf.get('strict_units', []):
+            # in these units only the labelled clauses belong to this property; any other obligation of the same functions
+            # (termination, arithmetic) is carried by the property that owns it, in its own unit
+            other = [f for f in u.failures if f.kind == 'verification' and not any(l.startswith(x) for l in f.labels for x in label_prefixes)]
+            for f in other:
+                print('NOTE unit=%s %s fails, which is not a clause of %s (see the unit of the property that owns it)' % (u.name, f.name(u.name), prop))
+            u.failures = [f for f in u.failures if f not in other]
+            u.not_owned = len({f.fn for f in other})
         if only_fns is not None and not unit_header_opts(os.path.join(UNITS, u.name)).get('noverus'):
             u.failures = [f for f in u.failures if f.fn in only_fns]
-            if u.name in pf.get('strict_units', []):
-                # in these units only the labelled clauses belong to this property; any other obligation of the same functions
-                # (termination, arithmetic) is carried by the property that owns it, in its own unit
-                other = [f for f in u.failures if f.kind == 'verification' and not any(l.startswith(x) for l in f.labels for x in label_prefixes)]
-                for f in other:
-                    print('NOTE unit=%s %s fails, which is not a clause of %s (see the unit of the property that owns it)' % (u.name, f.name(u.name), prop))
-                u.failures = [f for f in u.failures if f not in other]
-                u.not_owned = len({f.fn for f in other})
             u.functions = [fr for fr in u.functions if fr['fn'] in only_fns]
             u.verified = sum(1 for fr in u.functions if fr.get('success'))
             u.errors = sum(1 for fr in u.functions if fr.get('success') is False)
